@@ -66,6 +66,17 @@ def classify(case, entry, k):
         return ("error", repr(ex))
 
 
+def known_compile_panic(msg):
+    """compile-time panics already recorded in FINDINGS.md (matched by message shape)"""
+    if "FreeUnique" in msg and "_curried" in msg:
+        return "F5 FreeUnique(.._curried) shrinker.rs"
+    if "FreeUnique" in msg and "_id_" in msg:
+        return "F4 FreeUnique(<var>_id_N) shrinker.rs"
+    if "TryFromBigIntError" in msg and "machine/runtime.rs" in msg:
+        return "constant folding of a bytearray builtin with an out-of-range integer (C02/C10)"
+    return None
+
+
 def main(argv=None):
     ap = argparse.ArgumentParser()
     ap.add_argument("--n", type=int, default=200)
@@ -100,6 +111,7 @@ def main(argv=None):
     feats = {}
     disagreements = []
     panics = {}
+    known_panics = {}
     rejected = []
     for c in cs:
         for f, n in c["feature_counts"].items():
@@ -117,6 +129,12 @@ def main(argv=None):
         for e, er in zip(c["entries"], run["entries"]):
             st["fuel"] += sum(1 for x in e["expected"] if x[0] == "fuel")
             if "results" not in er:
+                msg = er.get("compile_panic", "")
+                known = known_compile_panic(msg)
+                if known:
+                    st["known_compile_panic"] = st.get("known_compile_panic", 0) + 1
+                    known_panics.setdefault(known, []).append(c["index"])
+                    continue
                 st["panic"] += 1
                 disagreements.append((c, e, None, None, {k: v for k, v in er.items() if k in ("compile_panic", "harness_error")}, None))
                 continue
@@ -149,6 +167,8 @@ def main(argv=None):
     print("rejected by checker    : %d (%.1f%%)   driver died/timeouts: %d   compile panics: %d" % (st["rejected"], 100.0 * st["rejected"] / max(1, st["modules"]), st["died"], st["panic"]))
     print("cases agreed           : %d  (value %d, abort %d = %.1f%% aborts)  fuel-skipped %d  other %d" % (total, st["agree_value"], st["agree_abort"], 100.0 * st["agree_abort"] / max(1, total), st["fuel"], st["other"]))
     print("DISAGREEMENTS          : %d new  + %d that coincide with a call-by-need evaluation of the source (FINDINGS.md F1 class)" % (st["disagree"] - st["lazy_explained"], st["lazy_explained"]))
+    for key, idxs in sorted(known_panics.items()):
+        print("known compile panic    : %s in %d entries (modules %s)" % (key, len(idxs), sorted(set(idxs))[:8]))
     for site, lst in sorted(panics.items()):
         c, e, k, exp, got = lst[0]
         print("machine panic (C04/C10) : %d cases at %s  e.g. module %d %s args %s: %s" % (len(lst), site, c["index"], e["name"], json.dumps(e["args"][k])[:200], got["panic"][:160]))
